@@ -576,8 +576,17 @@ def run(ctx):
         if res.success and mode in ("free", "inactive") and max_iter >= 1000:
             err = max(abs(float(x[i]) - float(c[i])) for i in range(n))
             if err > 1e-4:
-                ctx.fail("nelder_mead_maximiser", "success=True but result is not the maximiser of the concave quadratic (1e-4)",
-                         inp, impl, c.tolist())
+                fs = np.array(res.final_simplex, dtype=float)
+                vals = [qexact(v) for v in fs]
+                diam = max(float(np.max(np.abs(u - v))) for u in fs for v in fs)
+                if max(vals) - min(vals) < Fraction(1e-10) and diam > 1e-4:
+                    # all vertex values tie on a large simplex: term_f fires although the simplex has not contracted
+                    ctx.fail("nelder_mead_success_on_value_tie",
+                             "success=True at a non-maximiser: all vertex values tie (term_f) on a simplex of diameter > 1e-4",
+                             dict(inp, value_tie=True), impl, c.tolist())
+                else:
+                    ctx.fail("nelder_mead_maximiser", "success=True but result is not the maximiser of the concave quadratic (1e-4)",
+                             inp, impl, c.tolist())
 
 
 def replay(data):
